@@ -12,6 +12,14 @@ import (
 func PropC06(c *vs.Case, f Factory, kind string) error {
 	scn := GenScn(c, GenOpts{Kind: kind, AllowRolling: true, AllowUnknown: true})
 	scn.Prog.Ordered = false
+	// hooks sometimes echo status / system metadata back in their desired children;
+	// metacontroller must ignore both (no diff, no write)
+	for i := range scn.Prog.Children {
+		if c.Prob(1, 4) {
+			scn.Prog.Children[i].Fields["status"] = map[string]any{"phase": "FromHook", "n": int64(1)}
+			c.Class("desired-carries-status")
+		}
+	}
 	scn.Cfg.SSA = false
 	scn.Cfg.FinalizeHook = false
 	env, err := NewEnv(scn, f)
